@@ -432,7 +432,14 @@ pub fn exec_build_case(rest: &str) -> String {
             None => "na".into(),
         }
     );
-    format!("S:{}\tM:{}\tX:{}", s, m, x)
+    // E: how many occupied cache cells this build overwrote (hook H2; `na` without hooks). Which cell a full
+    // bucket gives up is the cache's replacement policy: no property constrains it, so tools/check does not
+    // count a byte difference from the model as a broken tie when the build evicted (see compare()).
+    let e = match out.stats {
+        Some(s) => s[2].to_string(),
+        None => "na".into(),
+    };
+    format!("S:{}\tM:{}\tX:{}\tE:{}", s, m, x, e)
 }
 
 // ---------------------------------------------------------------------------------------
